@@ -166,6 +166,10 @@ func runWriterVec(rep *Report, v *Vec, callers int, rng *rand.Rand) {
 			node = &eventlogger.FileSink{Path: "/dev/stderr", FileName: "ignored", Format: v.V.Conf}
 		}
 	}
+	if fsk, ok := node.(*eventlogger.FileSink); ok && (v.V.Kind == "devnull" || v.V.Kind == "stdout" || v.V.Kind == "stderr") && len(want[0])%2 == 0 {
+		// the special paths are pass-through: rotation options (a configuration shared with a real file sink) mean nothing there
+		fsk.MaxBytes, fsk.MaxDuration, fsk.MaxFiles, fsk.TimestampOnlyOnRotate = 1, time.Nanosecond, 1, len(want[0])%4 == 0
+	}
 	oks := make([]bool, callers)
 	var wg sync.WaitGroup
 	for i := 0; i < callers; i++ {
